@@ -155,6 +155,9 @@ def scenarios(thorough):
         sc_packages("pk3", "([1P] O [2P]) U [3P]", {"1P": "[1]", "2P": "[2] U [3]", "3P": "[4][901]"}),
         sc_packages("pkdup", "[1P] U [2P] O [1P] U [3P]", {"1P": "[1] O [5]", "2P": "[2]", "3P": "[UB1]"}),
         sc_packages("pkroot", "[7P]", {"7P": "[1] U [2]"}),
+        sc_packages("pkxxy", "[1P] U [1P] U [2P] O [3P]", {"1P": "[1]", "2P": "[2] X [3]", "3P": "[4]"}),
+        sc_requirement("rc10", "([1] U [2]) O ([3] U [4]) O ([5] U [6]) O ([7] U [8]) O ([9] U [10])",
+                       {1: "F", 2: "F", 3: "U", 4: "F", 5: "F", 6: "U", 7: "K", 8: "U", 9: "U", 10: "U"}),
         sc_ahb("ahbpk", "Muss [1P] U [4] Soll [2P][902]", {1: "U", 2: "F", 4: "F"}, text="z2", packages={"1P": "[1]", "2P": "[2] U [501]"}),
         sc_validity("valid1h", "Kann [1] U [501]"),
         sc_validity("validfc", "Muss [1][901]"),
@@ -178,7 +181,7 @@ def run():
     import ahb
     ahb.configure()
     for i, sc in enumerate(scenarios(thorough)):
-        A.check_scenario(sc, res, work, rng, max_all=(3000 if thorough else 300), extra_random=(300 if thorough else 25), sensitivity=({4: [("completion_order", "copy", "Assoc")], 11: [("positional", "shared", "OwnContext")]}.get(i)))
+        A.check_scenario(sc, res, work, rng, max_all=(3000 if thorough else 300), extra_random=(300 if thorough else 25), sensitivity=({4: [("completion_order", "copy", "Assoc")], 13: [("positional", "shared", "OwnContext")]}.get(i)))
     bad = [s for s in res.coverage.get("sensitivity", []) if s["violated"] != s["expected_to_violate"]]
     if bad:
         from common import MachineryError
